@@ -750,7 +750,52 @@ func (c *Ctx) evalValUnder(ev *evaluator, v ssa.Value, assume map[*ssa.Parameter
 		}
 	case *ssa.Field:
 		return field(c.evalValUnder(ev, x.X, assume, depth+1), fieldOfVal(x).Name())
+	case *ssa.BinOp:
+		// a comparison or arithmetic on two values that evaluate to one integer each
+		xa := c.evalValUnder(ev, x.X, assume, depth+1)
+		ya := c.evalValUnder(ev, x.Y, assume, depth+1)
+		if len(xa) == 1 && len(ya) == 1 {
+			a, ok1 := xa[0].Int()
+			b, ok2 := ya[0].Int()
+			if ok1 && ok2 {
+				mkB := func(v bool) []*Val { return []*Val{{Kind: "const", Const: constant.MakeBool(v), Pos: x.Pos()}} }
+				mkI := func(v int64) []*Val {
+					return []*Val{{Kind: "const", Const: constant.MakeInt64(v), Type: x.Type(), Pos: x.Pos()}}
+				}
+				switch x.Op {
+				case token.EQL:
+					return mkB(a == b)
+				case token.NEQ:
+					return mkB(a != b)
+				case token.LSS:
+					return mkB(a < b)
+				case token.LEQ:
+					return mkB(a <= b)
+				case token.GTR:
+					return mkB(a > b)
+				case token.GEQ:
+					return mkB(a >= b)
+				case token.ADD:
+					return mkI(a + b)
+				case token.SUB:
+					return mkI(a - b)
+				case token.MUL:
+					return mkI(a * b)
+				case token.AND:
+					return mkI(a & b)
+				case token.OR:
+					return mkI(a | b)
+				}
+			}
+		}
 	case *ssa.UnOp:
+		if x.Op == token.NOT {
+			if in := c.evalValUnder(ev, x.X, assume, depth+1); len(in) == 1 {
+				if bv, ok := in[0].Bool(); ok {
+					return []*Val{{Kind: "const", Const: constant.MakeBool(!bv), Pos: x.Pos()}}
+				}
+			}
+		}
 		if x.Op == token.MUL {
 			if fa, ok := x.X.(*ssa.FieldAddr); ok {
 				// a field of a local that holds a looked-up entry
